@@ -1538,7 +1538,9 @@ class SQLModel:
         if using is None:
             using = OrderedSet(join_node.column_names)
         if len(using) < 1:
-            raise ValueError("join must use or select at least one column")
+            # no column of the result is needed downstream (for example a row count):
+            # carry one column so the joined rows are still produced
+            using = OrderedSet(join_node.column_names[:1])
         missing = using - set(join_node.column_names)
         if len(missing) > 0:
             raise KeyError("referred to unknown columns: " + str(missing))
@@ -1653,7 +1655,9 @@ class SQLModel:
         if using is None:
             using = OrderedSet(concat_node.column_names)
         if len(using) < 1:
-            raise ValueError("must select at least one column")
+            # no column of the result is needed downstream (for example a row count):
+            # carry one column so the concatenated rows are still produced
+            using = OrderedSet(concat_node.column_names[:1])
         missing = using - set(concat_node.column_names)
         if len(missing) > 0:
             raise KeyError("referred to unknown columns: " + str(missing))
